@@ -32,6 +32,8 @@ def collect(res, rng, nruns, max_cases, kind="sh"):
             zl = [rng.choice([rng.random() * 0.02, rng.random() * 0.002, rng.random() * 0.3]) for _ in range(rng.choice([1, 30, 30]))]
         cls = dict(sh=mudslide.TrajectorySH, eh=mudslide.Ehrenfest, cum=mudslide.TrajectoryCum)[kind]
         kw = dict(hopping_probability="poisson" if pois else "tully") if kind == "sh" else {}
+        if kind == "cum" and rng.random() < 0.5:
+            kw = dict(hopping_probability="poisson")       # the option belongs to plain FSSH; the cumulative class accumulates the unscaled rates either way
         a0 = rng.randrange(n) if rng.random() < 0.4 else 0
         tr = cls(model, x0, p0, a0, dt=dt, max_steps=nsteps, zeta_list=list(zl), seed_sequence=rng.randrange(2 ** 31), **kw)
         if kind == "eh" and rng.random() < 0.7:
@@ -84,6 +86,11 @@ def collect(res, rng, nruns, max_cases, kind="sh"):
             else:
                 pc, zc, zlc, st = s_["cum"]; pc1, zc1, zlc1 = s_["cum_after"]
                 G = float(np.sum(g)); accn = pc + (pc - 1.0) * np.expm1(-G)
+                # oracle on the real run: the accumulation uses the per-step total rate G of this pass (whatever hopping_probability says)
+                if abs(accn - zc) > 1e-9 and ((accn > zc) != (zc1 != zc or pc1 == 0.0 and pc != 0.0) or (accn <= zc and abs(pc1 - accn) > 1e-12)):
+                    if not hasattr(res, "oracle_bad"): res.oracle_bad = []
+                    res.oracle_bad.append(dict(failed="cumulative run: accumulated probability after a pass is 1-(1-acc)exp(-G) with G the total rate of the pass, attempt iff it exceeds the threshold (before %r, G=%r, expected %r, threshold %r, after %r, options %r)"
+                                                      % (pc, G, accn, zc, pc1, kw), case=dict(model=mname, step=i, dt=dt)))
                 if abs(accn - zc) < 1e-9 * max(abs(zc), 1e-30):
                     res.knife_edge += 1; continue
                 if accn > zc and G > 0:
